@@ -38,8 +38,9 @@ LEVEL_NOTE = (
     "Trusted: Lean kernel + Mathlib (propext, Classical.choice, Quot.sound); real-number idealisation of IEEE arithmetic; the "
     "hand-written model is tied to the code by differential testing only (distribution in the evidence). Base functionals' "
     "prox maps are hypotheses here (property C02). CG convergence is not proved: the non-diagonal path is checked through the "
-    "residual of the proved system at the configured tolerance. Flags of the pinned tree are untruthful for a generic Loss "
-    "around a functional lacking the operation and for non-positive scales (known findings)."
+    "residual of the proved system at the configured tolerance. Soundness of a set has_prox flag assumes positive scales of "
+    "generic Loss objects (the flag does not look at Loss.scale); a ScaledFunctional with non-positive scale clears the flag "
+    "but still forwards prox. Findings repaired in /repo: 1a0aadd (Loss flags), 689de28 (non-positive scale)."
 )
 PROP_MODULES = ["Scico.Props.C08"]
 EXTRA_TARGETS = ["Drv.ProxCalc"]
@@ -186,14 +187,6 @@ def _oracle(scico):
 # one tree case
 
 
-def _known_id(ctx, patterns):
-    if "loss-flags" in patterns:
-        return "loss-flags-untruthful"
-    if "nonpos-scale" in patterns:
-        return "scaled-nonpositive-scale"
-    return None
-
-
 def run_tree_case(ctx, model, scico, case, oracle, stream):
     cplx = case["cplx"]
     shape = G.norm_shape(case.get("xshape", case["shape"]))
@@ -225,17 +218,12 @@ def run_tree_case(ctx, model, scico, case, oracle, stream):
 
     # ---- flags ----
     impl_flags = (bool(obj.has_eval), bool(obj.has_prox))
-    truthful = (r["he"], r["hp"])
-    code = (r["hec"], r["hpc"])
-    if impl_flags == truthful:
-        ctx.count("flags:truthful")
-    elif impl_flags == code and info.patterns:
-        ctx.count("flags:untruthful (known pattern " + ",".join(sorted(info.patterns)) + ")")
-        ctx.disagree("tree.flags", case, list(impl_flags), list(truthful), oracle=oracle, known_id=_known_id(ctx, info.patterns),
-                     note="constructor flags differ from the truthful rule")
-    else:
-        ctx.disagree("tree.flags", case, list(impl_flags), {"truthful": list(truthful), "code_model": list(code)}, oracle=oracle)
+    mflags = (r["he"], r["hp"])
+    if impl_flags != mflags:
+        ctx.disagree("tree.flags", case, list(impl_flags), list(mflags), oracle=oracle)
     ctx.count(f"flags:has_eval={impl_flags[0]},has_prox={impl_flags[1]}")
+    for p_ in sorted(info.patterns):
+        ctx.count("flags:tree with former defect pattern " + p_)
 
     # ---- f(x) ----
     ie = _impl(lambda: float(obj(x)))
@@ -577,15 +565,16 @@ def correspond(ctx, model):
     run_moreau(ctx, scico)
 
 
-KNOWN_WITNESSES = {
-    # Loss(y, f=L1Norm()+L2Norm()) declares has_prox although f has none
+# witnesses of the two findings repaired by 1a0aadd / 689de28 (regression cases; they also sit in corpus/C08)
+FIXED_WITNESSES = {
+    # Loss(y, f=L1Norm()+L2Norm()) declared has_prox although f has none
     "loss-flags-untruthful": {
         "cplx": False, "leaves": [{"kind": "l1"}, {"kind": "l2"}], "ops": [], "shape": [3],
         "t": {"k": "loss", "y": {"a": fs2b([1.0, 2.0, 3.0])}, "A": None,
               "f": {"k": "sum", "f": {"k": "leaf", "id": 0}, "g": {"k": "leaf", "id": 1}}, "scale": f2b(1.0)},
         "x": {"a": fs2b([0.5, -1.0, 2.0])}, "v": {"a": fs2b([0.5, -1.0, 2.0])}, "lam": f2b(1.0),
     },
-    # (-1)*L1Norm() declares has_prox; its prox at v=0 returns 0 whereas -|x|+x²/2 is minimised at ±1
+    # (-1)*L1Norm() declared has_prox; its prox at v=0 returns 0 whereas -|x|+x²/2 is minimised at ±1
     "scaled-nonpositive-scale": {
         "cplx": False, "leaves": [{"kind": "l1"}], "ops": [], "shape": [3],
         "t": {"k": "mul", "c": f2b(-1.0), "side": 0, "f": {"k": "leaf", "id": 0}},
@@ -595,19 +584,12 @@ KNOWN_WITNESSES = {
 
 
 def findings(ctx, model):
+    """no `known:` entry for C08 at present; the former witnesses are run as ordinary cases"""
     scico = common.setup_scico()
     oracle = _oracle(scico)
-    for fid, case in KNOWN_WITNESSES.items():
-        if fid not in ctx.known:
-            continue
-        obj, info = G.build(scico, case)
-        r = model.call("tree", cplx=case["cplx"], leaves=case["leaves"], ops=case["ops"], t=case["t"], x=case["x"],
-                       v=case["v"], lam=case["lam"])
-        still = (bool(obj.has_eval), bool(obj.has_prox)) != (r["he"], r["hp"])
-        c2 = dict(case)
-        mp = _model_field(r, "prox")
-        detail = oracle(c2)
-        ctx.known_finding(fid, still, detail=(detail or {}).get("what", ""))
+    for fid, case in FIXED_WITNESSES.items():
+        run_tree_case(ctx, model, scico, case, oracle, "regression")
+        ctx.known_finding(fid, False)
 
 
 def search(ctx, model, why):
